@@ -46,6 +46,7 @@ func (r *prng) next() uint64 {
 	z = (z ^ (z >> 27)) * 0x94d049bb133111eb
 	return z ^ (z >> 31)
 }
+
 // Intn makes prng an aztecref.Chooser.
 func (r *prng) Intn(n int) int { return r.intn(n) }
 
@@ -85,7 +86,8 @@ func buildParents() {
 	sharedHints = map[gozxing.DecodeHintType]interface{}{
 		gozxing.DecodeHintType_TRY_HARDER:                 true,
 		gozxing.DecodeHintType_NEED_RESULT_POINT_CALLBACK: gozxing.ResultPointCallback(func(gozxing.ResultPoint) {}),
-		gozxing.DecodeHintType_ALLOWED_EAN_EXTENSIONS:     []int{0, 2, 5},
+		// in the order a user wrote them, not ascending: a reader may search this list, it may not reorder it
+		gozxing.DecodeHintType_ALLOWED_EAN_EXTENSIONS: []int{5, 0, 2},
 		// formats of other families first, a duplicate last: what a configuration file yields
 		gozxing.DecodeHintType_POSSIBLE_FORMATS: []gozxing.BarcodeFormat{gozxing.BarcodeFormat_QR_CODE, gozxing.BarcodeFormat_CODE_128, gozxing.BarcodeFormat_EAN_13, gozxing.BarcodeFormat_UPC_A, gozxing.BarcodeFormat_EAN_8, gozxing.BarcodeFormat_UPC_E, gozxing.BarcodeFormat_EAN_13},
 	}
